@@ -324,4 +324,48 @@ def verifyPatch (calculated stored : Bytes) : Bool := norm calculated == norm st
 /-- what the normalisation may touch -/
 def isWs (b : UInt8) : Bool := b == 32 || b == 13 || b == 10
 
+/-! ## 4. revision property lines of the patch-based (0.8 / 0.9) bundle footer
+
+`RevisionInfo.from_revision` writes one line `": ".join((key, value))` per
+revision property; `RevisionInfo.as_revision` splits each line at the FIRST
+`": "` (a line without one must end in `:` and then has an empty value) and
+hands the pairs to `Revision(...)`, which refuses a key containing whitespace
+(only blank and newline are generated by the correspondence run; other
+whitespace characters are not modelled). -/
+
+abbrev PStr := List Char
+
+/-- `property.find(": ")` + the two slices: split at the first `": "` -/
+def splitSep : PStr → Option (PStr × PStr)
+  | [] => none
+  | [_] => none
+  | c :: d :: r =>
+    if c = ':' && d = ' ' then some ([], r)
+    else
+      match splitSep (d :: r) with
+      | some (k, v) => some (c :: k, v)
+      | none => none
+
+/-- does the text contain `": "` -/
+def hasSep : PStr → Bool
+  | [] => false
+  | [_] => false
+  | c :: d :: r => (c = ':' && d = ' ') || hasSep (d :: r)
+
+/-- the key check of `Revision.__init__` (blank / newline) -/
+def keyOk (k : PStr) : Bool := !(k.contains ' ' || k.contains '\n')
+
+/-- one line of `RevisionInfo.properties` → (key, value); `none` = ValueError -/
+def parsePropLine (s : PStr) : Option (PStr × PStr) :=
+  let kv : Option (PStr × PStr) :=
+    match splitSep s with
+    | some kv => some kv
+    | none => if s.getLast? = some ':' then some (s.dropLast, []) else none
+  match kv with
+  | some (k, v) => if keyOk k then some (k, v) else none
+  | none => none
+
+/-- `": ".join((key, value))` -/
+def propLine (k v : PStr) : PStr := k ++ ':' :: ' ' :: v
+
 end BreezyVerif.C40
